@@ -1,5 +1,6 @@
 from __future__ import annotations
 
+import math
 import numpy as np
 import warnings
 from dataclasses import dataclass
@@ -104,11 +105,15 @@ class SamplerConfig:
             errors.append("prior_transform must be callable")
         if not callable(self.log_likelihood):
             errors.append("log_likelihood must be callable")
-        if not isinstance(self.n_dim, int) or self.n_dim <= 0:
+        if (
+            isinstance(self.n_dim, bool)
+            or not isinstance(self.n_dim, int)
+            or self.n_dim <= 0
+        ):
             errors.append(f"n_dim must be positive int, got {self.n_dim}")
 
         # Check n_particles
-        if not isinstance(self.n_particles, int):
+        if isinstance(self.n_particles, bool) or not isinstance(self.n_particles, int):
             errors.append(f"n_particles must be int, got {type(self.n_particles)}")
         if self.n_particles <= 0:
             errors.append(
@@ -118,8 +123,10 @@ class SamplerConfig:
         # Check ess_ratio
         if not isinstance(self.ess_ratio, (int, float)):
             errors.append(f"ess_ratio must be numeric, got {type(self.ess_ratio)}")
-        if self.ess_ratio <= 0:
-            errors.append(f"ess_ratio must be positive, got {self.ess_ratio}")
+        if not self.ess_ratio > 0 or not math.isfinite(self.ess_ratio):
+            errors.append(
+                f"ess_ratio must be positive and finite, got {self.ess_ratio}"
+            )
 
         # Check volume_variation
         if self.volume_variation is not None:
@@ -127,9 +134,11 @@ class SamplerConfig:
                 errors.append(
                     f"volume_variation must be numeric or None, got {type(self.volume_variation)}"
                 )
-            elif self.volume_variation <= 0:
+            elif not self.volume_variation > 0 or not math.isfinite(
+                self.volume_variation
+            ):
                 errors.append(
-                    f"volume_variation ({self.volume_variation}) must be positive"
+                    f"volume_variation ({self.volume_variation}) must be positive and finite"
                 )
 
         # Check sampler
@@ -157,14 +166,16 @@ class SamplerConfig:
         # Check list parameters
         if self.periodic is not None:
             if not all(
-                isinstance(i, int) and 0 <= i < self.n_dim for i in self.periodic
+                isinstance(i, int) and not isinstance(i, bool) and 0 <= i < self.n_dim
+                for i in self.periodic
             ):
                 errors.append(
                     f"periodic indices must be integers in [0, {self.n_dim - 1}], got {self.periodic}"
                 )
         if self.reflective is not None:
             if not all(
-                isinstance(i, int) and 0 <= i < self.n_dim for i in self.reflective
+                isinstance(i, int) and not isinstance(i, bool) and 0 <= i < self.n_dim
+                for i in self.reflective
             ):
                 errors.append(
                     f"reflective indices must be integers in [0, {self.n_dim - 1}], got {self.reflective}"
